@@ -44,6 +44,9 @@ class ConnClosed(Exception):
     pass
 
 
+FAKE_GAPS = []      # AttributeErrors raised by the fake websocket: a gap in the harness, never a property verdict
+
+
 def _closed_exc(ok=True):
     from websockets.exceptions import ConnectionClosedOK, ConnectionClosedError
     from websockets.frames import Close
@@ -67,6 +70,37 @@ class FakeWS:
         self._waiter = None
         self.n_sent_after_close = 0
         self.on_event = None     # callback(kind, ws, data): "sent" at send time, "sclosed" when the server side closes
+
+    # ---- further attributes of websockets' protocol object that server code may consult
+    @property
+    def open(self):
+        return not self.closed
+
+    @property
+    def close_code(self):
+        return None if not self.closed else (1000 if self.close_ok else (1011 if self.closed_by == "server" else 1006))
+
+    @property
+    def close_reason(self):
+        return None if not self.closed else ""
+
+    remote_address = ("127.0.0.1", 0)
+    local_address = ("127.0.0.1", 0)
+    path = "/"
+    request_headers = {}
+    response_headers = {}
+    subprotocol = None
+
+    async def ping(self, data=None):
+        if self.closed:
+            raise _closed_exc(self.close_ok)
+        f = self.loop.create_future()
+        f.set_result(None)
+        return f
+
+    async def pong(self, data=b""):
+        if self.closed:
+            raise _closed_exc(self.close_ok)
 
     # ---- API used by the server code
     async def recv(self):
@@ -228,6 +262,8 @@ class ServerWorld:
                 await self.connector.handler(ws, "/")
             except BaseException as ex:  # the websockets server wrapper closes with 1011 on handler failure
                 ws.handler_exc = ex
+                if isinstance(ex, AttributeError) and "FakeWS" in str(ex):
+                    FAKE_GAPS.append(str(ex))      # the server code uses a part of the protocol API the fake does not have
                 self.handler_errors.append((name, repr(ex)))
                 ws._do_close("server", False)
                 if isinstance(ex, (KeyboardInterrupt, SystemExit, asyncio.CancelledError)):
